@@ -91,10 +91,42 @@ fn bytes_mut(init: &[u8], spare: usize) -> BytesMut {
     b
 }
 
+/// The same contents and spare capacity in the other representations a `BytesMut` can be in (they grow differently):
+///   0 = fresh vector | 1 = vector advanced past a 7-byte prefix | 2 = allocation shared with a live (empty) tail
+///   3 = shared representation whose other handle is gone | 4 = advanced past a prefix longer than contents + spare
+fn stored(kind: u128, init: &[u8], spare: usize) -> Option<(BytesMut, Option<BytesMut>)> {
+    Some(match kind {
+        0 => (bytes_mut(init, spare), None),
+        1 => {
+            let mut b = BytesMut::with_capacity(7 + init.len() + spare);
+            b.extend_from_slice(b"prefix!");
+            b.extend_from_slice(init);
+            b.advance(7);
+            (b, None)
+        }
+        2 | 3 => {
+            let mut b = BytesMut::with_capacity(init.len() + spare + 5);
+            b.extend_from_slice(init);
+            let t = b.split_off(init.len() + spare);
+            if kind == 2 { (b, Some(t)) } else { (b, None) }
+        }
+        4 => {
+            let off = init.len() + spare + 2048;
+            let mut b = BytesMut::with_capacity(off + init.len() + spare);
+            b.resize(off, b'<');
+            b.extend_from_slice(init);
+            b.advance(off);
+            (b, None)
+        }
+        _ => return None,
+    })
+}
+
 /// input: (L ctor (L (B w1) (B w2) ...) junk [driver])
 ///   ctor = (L (N 0))                      WriteableBytes::new()
 ///        | (L (N 1) (N cap))              WriteableBytes::with_capacity(cap)
-///        | (L (N 2) (B init) (N spare))   WriteableBytes::from(BytesMut{init, capacity = len + spare})
+///        | (L (N 2) (B init) (N spare) [(N storage)])   WriteableBytes::from(BytesMut{init, capacity = len + spare}),
+///                                                       in the representation `stored(storage, ..)`
 ///   driver (optional) = (N 0) `write` per slice | (N 1) `write_all` per slice | (N 2) `io::copy` of the concatenation
 ///                       | (N 3) `write_vectored` of all slices at once (std's default: first non-empty slice), then the rest
 /// output: Ok (L (B into_inner) (N sum of the counts returned by write))
@@ -102,10 +134,18 @@ fn writeable_once(x: &X) -> X {
     let l = match x.as_l() { Some(l) if l.len() == 3 || l.len() == 4 => l, _ => return X::bad() };
     let (ctor, writes) = match (l[0].as_l(), l[1].as_l()) { (Some(c), Some(w)) => (c, w), _ => return X::bad() };
     let driver = if l.len() == 4 { match l[3].as_n() { Some(d) => d, None => return X::bad() } } else { 0 };
+    let mut _keep_alive = None;
     let mut w = match ctor {
         [X::N(0)] => WriteableBytes::new(),
         [X::N(1), c] => match usize_of(c) { Some(c) => WriteableBytes::with_capacity(c), None => return X::bad() },
         [X::N(2), X::B(init), s] => match usize_of(s) { Some(s) => WriteableBytes::from(bytes_mut(init, s)), None => return X::bad() },
+        [X::N(2), X::B(init), s, X::N(k)] => match usize_of(s).and_then(|s| stored(*k, init, s)) {
+            Some((b, t)) => {
+                _keep_alive = t;
+                WriteableBytes::from(b)
+            }
+            None => return X::bad(),
+        },
         _ => return X::bad(),
     };
     let mut slices = Vec::new();
@@ -360,7 +400,8 @@ fn runtime() -> tokio::runtime::Runtime {
     tokio::runtime::Builder::new_current_thread().enable_all().build().expect("runtime")
 }
 
-/// input: (L (B init) (N spare) (N max) (L ev...) junk [patience])   ev = (B chunk) | (N error-code) | (L) = Pending
+/// input: (L (B init) (N spare) (N max) (L ev...) junk [patience [storage]])   ev = (B chunk) | (N error-code) | (L) = Pending
+///   storage (optional) = the representation of the buffer handed in, see `stored`
 ///   patience (optional) = (L)               the caller polls until the helper is done
 ///                       | (L (N k))         the caller drops the future at the (k+1)-th Pending (polled by hand)
 ///                       | (L (N 0) (N ms))  the caller is `tokio::time::timeout(ms, ..)` and the reader stalls for good at its
@@ -371,7 +412,8 @@ fn runtime() -> tokio::runtime::Runtime {
 ///       | (L (N 4) (B buffer) (N consumed-from-reader))            the future was dropped (cancelled)
 /// `(L (N 90) answer)`: a read was handed an empty window (which a reader can only answer with 0 bytes = end of stream).
 fn read_once(x: &X) -> X {
-    let l = match x.as_l() { Some(l) if l.len() == 5 || l.len() == 6 => l, _ => return X::bad() };
+    let l = match x.as_l() { Some(l) if (5..=7).contains(&l.len()) => l, _ => return X::bad() };
+    let storage = if l.len() == 7 { match l[6].as_n() { Some(k) => k, None => return X::bad() } } else { 0 };
     let (init, spare, max, evs) = match (l[0].as_b(), usize_of(&l[1]), l[2].as_n(), l[3].as_l()) {
         (Some(i), Some(s), Some(m), Some(e)) => (i, s, m, e),
         _ => return X::bad(),
@@ -403,7 +445,7 @@ fn read_once(x: &X) -> X {
     if timeout_ms.is_some() && npend > 1 {
         return X::bad();
     }
-    let mut buffer = bytes_mut(init, spare);
+    let (mut buffer, _keep_alive) = match stored(storage, init, spare) { Some(b) => b, None => return X::bad() };
     // None = the future was dropped before it finished
     let r: Option<std::io::Result<()>> = if let Some(ms) = timeout_ms {
         let rt = runtime();
@@ -479,8 +521,55 @@ fn file_once(x: &X) -> X {
     out
 }
 
+/// input: (L (N codec) (N level) (B body) junk): the body is compressed into a `WriteableBytes` the way
+/// `CompressedResponse::get_gzip / get_br / get_zstd` do it (src/comprash.rs: `with_capacity(len / 3 + 64)`, the encoder writes
+/// into `&mut buffer`, `into_inner().freeze()`), so the writes are the real encoders' (header bytes, 4-128 KiB blocks, trailers);
+/// what arrived in the buffer is decoded again with the standard decoder.   codec 0 = gzip, 1 = brotli, 2 = zstd
+/// output: Ok (B decoded) | Err 1 (the encoder reported an error) | Err 2 (what is in the buffer does not decode)
+fn encode_once(x: &X) -> X {
+    use std::io::Read;
+    let l = match x.as_l() { Some(l) if l.len() == 4 => l, _ => return X::bad() };
+    let (codec, level, bytes) = match (l[0].as_n(), l[1].as_n(), l[2].as_b()) {
+        (Some(c), Some(lv), Some(b)) => (c, lv as u32, b),
+        _ => return X::bad(),
+    };
+    let mut buffer = WriteableBytes::with_capacity(bytes.len() / 3 + 64);
+    let ok = match codec {
+        0 => {
+            let mut c = flate2::write::GzEncoder::new(&mut buffer, flate2::Compression::new(level.min(9)));
+            c.write_all(bytes).is_ok() && c.finish().is_ok()
+        }
+        1 => {
+            let mut c = brotli::CompressorWriter::new(&mut buffer, 4096, level.min(11), 21);
+            let ok = c.write_all(bytes).is_ok() && c.flush().is_ok();
+            c.into_inner();
+            ok
+        }
+        2 => match zstd::Encoder::new(&mut buffer, level.min(19) as i32) {
+            Ok(mut e) => e.write_all(bytes).is_ok() && e.finish().is_ok(),
+            Err(_) => false,
+        },
+        _ => return X::bad(),
+    };
+    if !ok {
+        return X::err(1);
+    }
+    let out = buffer.into_inner().freeze();
+    let mut back = Vec::new();
+    let decoded = match codec {
+        0 => flate2::read::GzDecoder::new(&out[..]).read_to_end(&mut back).is_ok(),
+        1 => brotli::Decompressor::new(&out[..], 4096).read_to_end(&mut back).is_ok(),
+        _ => zstd::Decoder::new(&out[..]).and_then(|mut d| d.read_to_end(&mut back)).is_ok(),
+    };
+    if !decoded {
+        return X::err(2);
+    }
+    X::ok(X::b(&back))
+}
+
 pub fn dispatch(comp: &str, x: &X) -> Option<X> {
     Some(match comp {
+        "buf.encode" => twice(|| encode_once(x)),
         "buf.writeable" => twice(|| writeable_once(x)),
         "buf.replace" => twice(|| replace_once(x)),
         "buf.replace_seq" => twice(|| replace_seq_once(x)),
